@@ -421,6 +421,8 @@ class Fn:
             return v != 0
         if isinstance(v, Poison):
             raise Unsupported('use of unmergeable variable ' + v.name)
+        if hasattr(v, 'sym_bool'):
+            return v.sym_bool(self)
         raise Unsupported('truth value of %r' % (v,))
 
     def trunc(self, x):
@@ -460,6 +462,11 @@ class Fn:
         return res
 
     def _binop(self, op, a, b, pa, pb):
+        # contract objects (e.g. a modelled datetime) implement their own operators
+        if hasattr(a, 'sym_binop'):
+            return a.sym_binop(self, op, b, False)
+        if hasattr(b, 'sym_binop'):
+            return b.sym_binop(self, op, a, True)
         a, b = unwrap(a), unwrap(b)
         if isinstance(op, (ast.FloorDiv, ast.Mod)) and (pa in (decimal.Decimal, float) or pb in (decimal.Decimal, float)):
             return self.typed_divmod(op, a, b, pa, pb)
@@ -546,6 +553,8 @@ class Fn:
                 if e.attr in base.attrs:
                     return base.attrs[e.attr]
                 raise Unsupported('attribute %s.%s' % (base.name, e.attr))
+            if hasattr(base, 'sym_attr'):
+                return base.sym_attr(self, e.attr)
             if isinstance(base, (Sym, AbsStr)) or is_z3(base):
                 return BoundMethod(base, e.attr)
             if inspect.ismodule(base) or inspect.isclass(base) or isinstance(base, (decimal.Decimal, str, int)):
@@ -659,6 +668,8 @@ class Fn:
             if f.attr == 'quantize':
                 return self.stub_quantize(f.recv, *args, **kwargs)
             raise Unsupported('method ' + f.attr)
+        if isinstance(f, SymCallable):
+            return f.fn(self, *args, **kwargs)
         if isinstance(f, TypeOf):
             return args[0]
         if inspect.isbuiltin(f) and isinstance(getattr(f, '__self__', None), (decimal.Decimal, str, int)) and \
@@ -814,6 +825,12 @@ class Fn:
         return z3.ToReal(self.round_half(x * scale, mode)) / scale
 
 
+class SymCallable:
+    """a contract function living in the symbolic world (returned by sym_attr for methods)"""
+    def __init__(self, fn):
+        self.fn = fn
+
+
 class BoundMethod:
     def __init__(self, recv, attr):
         self.recv, self.attr = recv, attr
@@ -834,12 +851,17 @@ class CondTuple:
         self.c, self.a, self.b = c, a, b
 
 
-def translate(pyfn, args, stubs=None, env=None, kwargs=None, procedure=False):
+def translate(pyfn, args, stubs=None, env=None, kwargs=None, procedure=False, raw_outcomes=False):
     """Translate and call; returns dict(val, raised, labels, side, nonneg, oob, notes, callee_raises)."""
     fn = Fn(pyfn, stubs=stubs, env=env)
     fn.nonneg, fn.side_oob, fn.callee_raises = [], [], []
     rets = fn(*args, **(kwargs or {}))
-    val, raised, labels = fn.value(rets, allow_none=procedure)
+    try:
+        val, raised, labels = fn.value(rets, allow_none=procedure)
+    except Unsupported:
+        if not raw_outcomes:
+            raise
+        val, raised, labels = None, z3.Or(*[c for c, v in rets if isinstance(v, Raised)] + [z3.BoolVal(False)]), {}
     return dict(yields=fn.yields, loop_positions=fn.loop_positions, val=val, raised=raised, labels=labels, side=fn.side, nonneg=fn.nonneg, oob=fn.side_oob, notes=fn.notes,
                 callee_raises=fn.callee_raises, rets=rets, fn=fn)
 
